@@ -273,14 +273,25 @@ def gen_drain(rng, run):
     return evs
 
 
+ORIG20 = "4142434445464748494a4b4c4d4e4f5051525354"
+
+# Fixed corpus: runs first, independent of VERIF_SEED; one minimal history per known mechanism (every seeded
+# change and every defect repaired in /repo), so that re-introducing any of them is caught here, not by luck.
 CORPUS = [
-    # DESIGN §3 probe: overwrite [0,10), overwrite [2,5), then the whole download in one chunk
-    ("4142434445464748494a4b4c4d4e4f5051525354", ["w:0:78787878787878787878", "w:2:797979", "k:20", "d:1", "f"]),
+    # fix 59fffcf (write(): merge loop took `end = end1`) and seeded C39-a (merge loop takes the end of the last popped
+    # region): overwrite [0,10), nested overwrite [2,5), then the whole download in one chunk
+    (ORIG20, ["w:0:78787878787878787878", "w:2:797979", "k:20", "d:1", "f"]),
     # same, with a read of the damaged region pending while the download arrives
-    ("4142434445464748494a4b4c4d4e4f5051525354", ["w:0:78787878787878787878", "w:2:797979", "r:4:8", "k:7", "k:13", "f", "d:1", "f"]),
-    # truncate below a recorded overwrite, extend again, download
-    ("4142434445464748494a4b4c4d4e4f5051525354", ["w:10:8081828384", "s:12", "s:18", "k:5", "r:0:18", "k:15", "f", "d:1", "f"]),
-    # write beyond EOF (zero gap), chunks straddling the overwrite
+    (ORIG20, ["w:0:78787878787878787878", "w:2:797979", "r:4:8", "k:7", "k:13", "f", "d:1", "f"]),
+    # C39-a, second shape: [5,18) then nested [8,10), download in small chunks
+    (ORIG20, ["w:5:c0c1c2c3c4c5c6c7c8c9cacbcc", "w:8:d0d1", "k:6", "k:3", "k:4", "k:7", "d:1", "f"]),
+    # seeded C39-b (set_current_size prunes heap entries that straddle the new EOF): write [10,15) ahead of the download,
+    # truncate to 12 (inside the write, above `downloaded`), download the rest; then the same with a re-extension
+    (ORIG20, ["k:4", "w:10:8081828384", "s:12", "k:3", "k:13", "d:1", "f"]),
+    (ORIG20, ["w:10:8081828384", "s:12", "s:18", "k:5", "r:0:18", "k:15", "f", "d:1", "f"]),
+    # seeded C39-c (overwrite() forgets a region that straddles the download frontier: start < downloaded < end)
+    (ORIG20, ["k:6", "w:4:c8c9cacbcc", "k:3", "f", "k:40", "d:1", "f"]),
+    # ... and a zero-extension (set_current_size -> overwrite) that straddles nothing but starts at the frontier
     ("41424344454647484950", ["w:14:f0f1", "k:3", "w:2:e0e1e2e3", "k:2", "k:5", "d:1", "f"]),
     ("-", ["w:3:9091", "r:0:9", "s:1", "k:1", "d:1", "f"]),
 ]
@@ -366,7 +377,9 @@ def run(ctx):
             evs2, outs, r = execute(ctx, unhx(orig_hex), evs)
             report(ctx, orig_hex, evs2, r, False)
             record(orig_hex, evs2, outs)
-        n_hist = ctx.budget(500, 60000)
+        n_hist = 0 if os.environ.get("VERIF_CORPUS_ONLY") else ctx.budget(500, 60000)
+        if not n_hist:
+            ctx.note("VERIF_CORPUS_ONLY: fixed corpus only")
         for i in range(n_hist):
             rng = ctx.rng
             size = rng.choice([0, 1, 5, 12, 20, 20, 33, 64])
